@@ -61,6 +61,7 @@ extern "C" unsigned char stub_strtonum(QNumber64 *num, const C *content, unsigne
     return t;
 }
 extern "C" void stub_pow(unsigned long long *num, unsigned e) { *num = vf_u64(); }
+extern "C" bool stub_pow_b(unsigned long long *num, unsigned e) { *num = vf_u64(); return (vf_u8() & 1) != 0; }   // bool-returning variant (reports overflow)
 
 static const C *mkbuf() { const C *b = vf_buf<C>(L); g_buf = b; g_len = L; return b; }
 
